@@ -68,7 +68,7 @@ def classify_dec(ver, pfx, o1, o2, nka, method, has_cl):
 
 @harness(
     pre=pre_dec,
-    quick=dict(X=3, timeout=120, reach_timeout=60),
+    quick=dict(X=3, timeout=120, reach_timeout=150),
     thorough=dict(X=5, timeout=900, reach_timeout=90),
     nshards=dict(quick=6, thorough=10),
     reach=["close_found", "keepalive_found", "close_told"],
@@ -84,6 +84,10 @@ def h_decision(ver: int, pfx: int, o1: int, o2: int, nka: bool, method: int, has
     """The keep-alive decision and its announcement for a solver-chosen Connection value."""
     if P.reach == "ack_sent" and (ver != 0 or nka or pfx != 1):
         return      # reach-twin steering only (necessary condition for the tag)
+    if P.reach == "keepalive_found" and pfx != 1:
+        return      # reach-twin steering only
+    if P.reach == "close_found" and pfx != 0:
+        return      # reach-twin steering only
     value = CONN_PREFIX[pfx] + chr(o1) + chr(o2)
     meth = _M[method]
     with install() as env:
